@@ -206,6 +206,7 @@ def upd (o : Opt) (sh : Sh p) (f : Fault) (w : FW p) : Res p :=
   -- 2
   if !hSkip hs0 && f == .frontMaps then { w := commitAll w1 s0 hs0, err := true } else
   let hs1 := hWrite hs0
+  let w1 : FW p := { w1 with h := hs1 }
   -- 3
   let bchg := backChanged s0
   let bmFiles := anyFin fun x => match s0.add x with | some c => o.needACL (conf c) | none => false
